@@ -18,7 +18,16 @@ import (
 //
 // All definitions must agree on the key.
 func changeRecordKey(v ssa.Value, depth int) (ssa.Value, bool) {
-	if v == nil || depth > 3 {
+	if v == nil {
+		return nil, false
+	}
+	return changeRecordKeyOf([]ssa.Value{v}, depth)
+}
+
+// changeRecordKeyOf: the values vs, taken together (the operands of a phi, or what the returns of a function
+// deliver), are the cache entry for one key.
+func changeRecordKeyOf(vs []ssa.Value, depth int) (ssa.Value, bool) {
+	if len(vs) == 0 || depth > 3 {
 		return nil, false
 	}
 	var key ssa.Value
@@ -36,7 +45,11 @@ func changeRecordKey(v ssa.Value, depth int) (ssa.Value, bool) {
 		_, is := ssau.LoadOfField(m, prog.Abs("sio"), "Crew", "changed")
 		return is
 	}
-	ds := phiDefs(v, nil, map[ssa.Value]bool{})
+	var ds []ssa.Value
+	seenDef := map[ssa.Value]bool{}
+	for _, v := range vs {
+		ds = append(ds, phiDefs(v, nil, seenDef)...)
+	}
 	if len(ds) == 0 {
 		return nil, false
 	}
@@ -69,7 +82,9 @@ func changeRecordKey(v ssa.Value, depth int) (ssa.Value, bool) {
 			if h == nil || h.Blocks == nil || prog.PkgOf(h) != "sio" || h.Signature.Results().Len() != 1 {
 				return nil, false
 			}
-			pi := -1
+			// (what the returns deliver is judged together: one return may hand out the entry found, another the
+			// entry just created)
+			var rets []ssa.Value
 			for _, b := range h.Blocks {
 				ret, isRet := b.Instrs[len(b.Instrs)-1].(*ssa.Return)
 				if !isRet {
@@ -78,24 +93,21 @@ func changeRecordKey(v ssa.Value, depth int) (ssa.Value, bool) {
 				if len(ret.Results) != 1 {
 					return nil, false
 				}
-				k, ok := changeRecordKey(ret.Results[0], depth+1)
-				if !ok {
-					return nil, false
+				rets = append(rets, ret.Results[0])
+			}
+			k, ok := changeRecordKeyOf(rets, depth+1)
+			if !ok {
+				return nil, false
+			}
+			par, isPar := k.(*ssa.Parameter)
+			if !isPar || par.Parent() != h {
+				return nil, false
+			}
+			pi := -1
+			for i, p := range h.Params {
+				if p == par {
+					pi = i
 				}
-				par, isPar := k.(*ssa.Parameter)
-				if !isPar || par.Parent() != h {
-					return nil, false
-				}
-				idx := -1
-				for i, p := range h.Params {
-					if p == par {
-						idx = i
-					}
-				}
-				if idx < 0 || (pi >= 0 && pi != idx) {
-					return nil, false
-				}
-				pi = idx
 			}
 			if pi < 0 || pi >= len(x.Common().Args) || !agree(x.Common().Args[pi]) {
 				return nil, false
